@@ -140,6 +140,10 @@ class BasebandReader(BaseReader):
                 if self.real_baseband:
                     fh.seek(2 * offset)
                     z = pb.utils.real_to_complex(fh.read(2 * n), axis=0)
+                    if offset % 2:
+                        # The quarter-rate mixing phase counts from the start of
+                        # the file, not of this read: (-i) ** (2 * offset).
+                        z = -z
                 else:
                     fh.seek(offset)
                     z = fh.read(n)
